@@ -15,7 +15,7 @@ from .. import rig as R, ref, gen, subm, dump, qcore, env
 from ..orch import h
 
 ID = "C06"
-TECHNIQUE = 'runtime monitoring - per-submission oracle at quiescence: one OK per EVENT, OK=true implies retrievable (dump + REQ), OK=false implies no trace (records, index keys, tags rows, pushes); resubmissions, orderly restart right behind the acknowledgement; end-to-end shards on a real server process tree: one OK per EVENT on the wire; events acknowledged before SIGTERM (orderly gunicorn shutdown, also in the middle of a burst) are retrievable after the restart'
+TECHNIQUE = 'runtime monitoring - per-submission oracle at quiescence: one OK per EVENT, OK=true implies retrievable (dump + REQ), OK=false implies no trace (records, index keys, tags rows, pushes); resubmissions, orderly restart right behind the acknowledgement; end-to-end shards on a real server process tree: one OK per EVENT on the wire; events acknowledged before SIGTERM (orderly gunicorn shutdown, also in the middle of a burst) are retrievable after the restart; an event stored through one worker process, removed through another (deletion / newer version) and offered to the first again is not refused as a duplicate'
 LEVEL = "exploration"
 RULE = (
     "cases = (backend, seeded sequence of 25-50 EVENT submissions mixing valid events of every kind class, exact "
@@ -33,7 +33,7 @@ ASSUMPTIONS = [
     "LMDB backend over /verif/shim; SQL = SQLite",
 ]
 MIN_NONTRIVIAL = {"quick": 150, "thorough": 400}
-REQUIRED_COUNTERS = ["e2e.e2e_ok_frames_checked", "e2e.e2e_restart_lookups", "clause.ok_true_retrievable", "clause.ok_false_no_trace", "clause.must_accept", "clause.resubmission", "clause.one_ok", "clause.ok_true_retrievable_after_restart"]
+REQUIRED_COUNTERS = ["e2e.e2e_ok_frames_checked", "e2e.e2e_restart_lookups", "e2e.e2e_crossworker_resubmissions", "clause.ok_true_retrievable", "clause.ok_false_no_trace", "clause.must_accept", "clause.resubmission", "clause.one_ok", "clause.ok_true_retrievable_after_restart"]
 SHARD_TIMEOUT = {"quick": 500, "thorough": 3000}
 EXTREMES = [-1, 0, 1, 2 ** 31 - 1, 2 ** 31, 2 ** 32 - 1, 2 ** 32, 2 ** 63 - 1, 2 ** 63]
 
@@ -48,6 +48,7 @@ def e2e_plan(tier, seed):
     for i in range(1 if tier == "quick" else 4):
         for b in ("sql", "lmdb"):
             out.append({"mode": "e2e", "e2e": "wire", "backend": b, "seed": seed * 7919 + 200 + i, "nevents": 50})
+            out.append({"mode": "e2e", "e2e": "crossworker", "backend": b, "workers": 2 + i % 2, "seed": seed * 7919 + i})
             out.append({"mode": "e2e", "e2e": "restart", "backend": b, "seed": seed * 7919 + i, "nevents": 120 if tier == "quick" else 400, "during_burst": False})
             out.append({"mode": "e2e", "e2e": "restart", "backend": b, "seed": seed * 7919 + 50 + i, "nevents": 200 if tier == "quick" else 600, "during_burst": True})
     return out
